@@ -90,9 +90,9 @@ def leaves1(tier):
 
 
 def leaves3(tier):
-    out = [S1, S_GROW]
+    out = [S1, S_GROW, S2]
     if tier == "thorough":
-        out += [S2, S_MOVE]
+        out += [S_MOVE]
     return out
 
 
